@@ -50,8 +50,13 @@ def run(pid, tier, seed, root, build, log):
     for f in plan["filters"]:
         cmd += ["--harness", f]
     logf = os.path.join(build, f"kani-{pid}.log")
+    # address-space cap per process (inherited by every cbmc): 62 GB machine without swap, `jobs` solvers at once
+    cap = max(8 * 2**30, int(48 * 2**30 / max(jobs, 1)))
+    def limit():
+        import resource
+        resource.setrlimit(resource.RLIMIT_AS, (cap, cap))
     with open(logf, "w") as lf:
-        r = subprocess.run(cmd, cwd=os.path.join(root, "kani"), env=_env(), stdout=lf, stderr=subprocess.STDOUT, text=True)
+        r = subprocess.run(cmd, cwd=os.path.join(root, "kani"), env=_env(), stdout=lf, stderr=subprocess.STDOUT, text=True, preexec_fn=limit)
     text = open(logf).read()
     if "error: could not compile" in text or "Failed to execute cargo" in text:
         log(text[-3000:])
@@ -121,11 +126,18 @@ def parse(text, names):
             r["status"] = "verified"
         if "VERIFICATION:- FAILED" in line:
             r["status"] = "unwinding" if any("unwinding" in c for c in r["failed_checks"]) and all("unwinding" in c for c in r["failed_checks"]) else "failed"
+        if "run out of memory" in line or "CBMC failed" in line:
+            r["oom"] = r.get("oom") or "run out of memory" in line
+            r["cbmc_failed"] = True
         if "timed out" in line.lower() or "TIMEOUT" in line:
             r["status"] = "timeout"
         m = re.search(r"Verification Time: ([\d.]+)s", line)
         if m:
             r["time"] = float(m.group(1))
+    # a harness that "failed" without a failed check (CBMC killed, out of memory, internal error) decided nothing
+    for n, r in res.items():
+        if r["status"] == "failed" and (r.get("oom") or not r["failed_checks"]):
+            r["status"] = "out-of-memory" if r.get("oom") else "no-verdict"
     # Kani's own summary is authoritative for failures
     for m in re.finditer(r"Verification failed for - (\S+)", text):
         n = m.group(1)
